@@ -93,7 +93,7 @@ Export == pc = "done" => PrintT(<<"CASE", ToJson([g |-> Geo])>>)
 
 (* ---- Impl => Req ---- *)
 AtStart == pc = "bounds"      \* once per geometry, in a non-initial state (initial states are checked by one thread only)
-GeneratedAreValid  == AtStart => GV!ValidStrict(kind, toks) /\ GV!Normal(kind, toks) = toks       \* C03-valid, already in normal form
+GeneratedAreValid  == AtStart => GV!Valid(kind, toks) /\ GV!Normal(kind, toks) = toks       \* constructible (C03), already in normal form
 ImplShapePreserves == pc = "bounds" => ShapePreserves(Geo, shape) /\ (kind \in GeoJsonKinds => shape.kind = kind)
 ImplBoundsExact    == pc = "features" => sb = B(Geo)
 ImplFeatRight      == pc = "anchors" => LET g == Geo  f == Feat(g) IN
